@@ -223,8 +223,27 @@ def snapshot(cpu, with_mem=True):
     out = {k: v for k, v in out.items() if k in KEYS or _IDX.sub('[]', k) in KEYS}
     if with_mem:
         for i, mc in enumerate(cpu.mem.memories):
-            out['mem%d' % i] = bytes(mc.mem.memory_array)
+            out['mem%d' % i] = mem_bytes(mc.mem)
     return out
+
+
+def mem_bytes(mem):
+    """contents of a memory device: its backing bytearray where the device keeps one as an instance attribute (so that a change of its length shows),
+    the device's own read() otherwise (an implementation may store its bytes any way it likes)"""
+    if isinstance(vars(mem).get('memory_array'), bytearray):
+        return bytes(mem.memory_array)
+    return bytes(mem.read(0, mem.size))
+
+
+def mem_fill(mem, offset, data):
+    """what an embedder does to load an image: through the backing bytearray if there is one, else through the device's write()"""
+    arr = vars(mem).get('memory_array')
+    if isinstance(arr, bytearray):
+        arr[offset:offset + len(data)] = data
+    else:
+        for o in range(0, len(data), 4096):
+            chunk = data[o:o + 4096]
+            mem.write(offset + o, len(chunk), chunk)
 
 
 def apply_state(cpu, state):
@@ -235,8 +254,7 @@ def apply_state(cpu, state):
         if k.startswith('R.'):
             R[RNAMES[k[2:]]] = v
         elif k.startswith('mem'):
-            arr = cpu.mem.memories[int(k[3:])].mem.memory_array
-            arr[:] = v
+            mem_fill(cpu.mem.memories[int(k[3:])].mem, 0, bytes(v))
         elif k == 'cplog':
             cpu.cplog = list(v)
         elif k == 'excl':
@@ -268,7 +286,7 @@ def poke(cpu, addr, data):
         a = (addr + i) & 0xFFFFFFFF
         for mc in cpu.mem.memories:
             if mc.beginning <= a < mc.end:
-                mc.mem.memory_array[a - mc.beginning] = b
+                mem_fill(mc.mem, a - mc.beginning, bytes((b,)))
                 break
 
 
